@@ -259,6 +259,7 @@ func runReplays[S any](t *testing.T, c Check[S], col *collector) {
 		b, _ := os.ReadFile(f)
 		var vf struct {
 			Scenario json.RawMessage `json:"scenario"`
+			Repeat   int             `json:"repeat"` // schedule-dependent scenarios are executed several times
 		}
 		var s S
 		if err := json.Unmarshal(b, &vf); err != nil {
@@ -269,6 +270,9 @@ func runReplays[S any](t *testing.T, c Check[S], col *collector) {
 		}
 		res := c.Run(t, s)
 		col.record(s, res)
+		for i := 1; i < vf.Repeat && len(res.Violations) == 0; i++ {
+			res = c.Run(t, s)
+		}
 		vs := res.Violations
 		if vs == nil {
 			vs = []Violation{}
